@@ -34,6 +34,16 @@ LiteralInvalid(prog) ==
      \/ \E j \in DOMAIN ss : ss[j].k = "gate" /\ ss[j].v \notin MacroNames(prog) /\ prog.natives # <<>> /\
            (ss[j].v \notin NativeNames(prog) \/ Len(NativeOf(prog, ss[j].v).kinds) # Len(ss[j].args))
 
+\* the program without its top-level macro calls: what is wrong with it does not depend on a macro argument, so it
+\* is known once the constants are (parse or let substitution)
+RECURSIVE StripCallsStmt(_, _)
+StripCallsStmt(s, names) ==
+  CASE s.k = "blk" -> [s EXCEPT !.body = SelectSeq([j \in DOMAIN s.body |-> StripCallsStmt(s.body[j], names)], LAMBDA x : x.k # "dropped")]
+    [] s.k = "loop" -> [s EXCEPT !.body = StripCallsStmt(s.body, names)]
+    [] s.k = "gate" -> IF s.v \in names THEN [k |-> "dropped"] ELSE s
+    [] OTHER -> s
+StripCalls(p) == [p EXCEPT !.body = SelectSeq([j \in DOMAIN p.body |-> StripCallsStmt(p.body[j], MacroNames(p))], LAMBDA x : x.k # "dropped")]
+
 VClauses(c) ==
   LET valid == ValidAll(c.model, c.ovr)
       ff == FirstFail(c)
@@ -44,6 +54,7 @@ VClauses(c) ==
      \* declared and the overriding environment
      \cup F("valid_accepted", valid /\ ValidAll(c.model, <<>>) /\ ~allok)
      \cup F("literal_rejected_at_parse", LiteralInvalid(c.model) /\ ~allok /\ StageIdx(ff.stage) > 1)
+     \cup F("known_by_let_stage", ~ValidAll(StripCalls(c.model), c.ovr) /\ ~allok /\ StageIdx(ff.stage) > 2)
      \cup F("honoured", valid /\ allok /\ c.hooked /\
             LET tree == ExecTree(c.model, c.ovr)
                 d == DiscoverRule(tree)
